@@ -232,6 +232,7 @@ impl Session {
         } else {
             None
         };
+        let any_append_of_text = w[0] == "any_append" && !self.xot.is_removed(n(self, 2)) && self.xot.is_text(n(self, 2));
         // remove destroys exactly the targeted subtree (C05; seed C05k): every node of it, entry nodes included
         let doomed: Vec<Node> = if w[0] == "remove" && !self.xot.is_removed(n(self, 1)) {
             let a = n(self, 1);
@@ -432,6 +433,19 @@ impl Session {
             sink.fail("C04", &format!("C04:{}:parent-links-form-a-cycle", w[0]), &format!("after {} (answer {}): walking up the parent links from a live node never reaches a root", req, resp), &self.history);
             self.emit(sink, req.to_string(), resp.clone());
             return resp;
+        }
+        // no removed node is ever handed out (C04; seed C04l: an entry node re-appended to its own element
+        // was removed and returned)
+        if let Some(r) = returned {
+            sink.stat("oracle.returned-node-live");
+            if self.xot.is_removed(r) {
+                if any_append_of_text {
+                    // recorded finding: any_append returns its argument although consolidation merged it away
+                    sink.fail("C04", "C04:any_append:returns-the-text-node-that-consolidation-merged-away", &format!("{} answered ok and returned the text node it was given, which consolidation merged into the preceding text node and removed", req), &self.history);
+                } else {
+                    sink.fail("C04", &format!("C04:{}:hands-out-a-removed-node", w[0]), &format!("{} answered ok and returned a node that is removed", req), &self.history);
+                }
+            }
         }
         self.relabel(returned);
         let resp = if resp == "NEW" {
